@@ -227,8 +227,11 @@ class Resolver:
                 for i in n.items:
                     if isinstance(i.optional_vars, ast.Name):
                         pairs.append((i.optional_vars.id, i.context_expr))
+            # x = A if c else B binds x to either arm (the normaliser writes `if c: x = A else: x = B` this way)
+            pairs = [(name, arm) for name, v in pairs for arm in ((v.body, v.orelse) if isinstance(v, ast.IfExp) else (v,))]
+            multi = {name for name, _v in pairs if [p_[0] for p_ in pairs].count(name) > 1}
             for name, v in pairs:
-                if counts.get(name, 0) != 1:
+                if counts.get(name, 0) != 1 or name in multi:
                     # a local bound several times, every time to a class: remember all candidates
                     if isinstance(n, ast.Assign) and name not in func.params:
                         t = self.type_of(v, func) if not isinstance(v, ast.Name) or v.id != name else None
@@ -252,6 +255,11 @@ class Resolver:
             return None
         if isinstance(expr, ast.Await):
             return self.type_of(expr.value, func, _depth + 1)
+        if isinstance(expr, ast.IfExp):
+            a, b = self.type_of(expr.body, func, _depth + 1), self.type_of(expr.orelse, func, _depth + 1)
+            if a == b or b is None:
+                return a
+            return b if a is None else (a if a[0] == b[0] == 'cls' else None)
         if isinstance(expr, ast.Name):
             return self._type_of_name(expr.id, func, _depth)
         if isinstance(expr, ast.Attribute):
